@@ -3,6 +3,7 @@ package props
 import (
 	"fmt"
 	"slices"
+	"strings"
 	"sync"
 
 	"github.com/AdguardTeam/urlfilter"
@@ -592,6 +593,17 @@ func c07EngineSelection(c *core.Ctx) {
 		}
 		lines = append(lines, s.Render(c.Rng))
 	}
+	srcURL := "https://d.com/"
+	if !dnsOnly && c.Rng.Intn(4) == 0 {
+		// The $domain values are public suffixes (a private one, a two-level
+		// one), the referrer is a site below them.
+		suffix := []string{"github.io", "co.uk", "blogspot.com"}[c.Rng.Intn(3)]
+		for i, l := range lines {
+			lines[i] = strings.NewReplacer("d.com", suffix, "e.com", "other."+suffix, "d.*", suffix, "e.*", "other."+suffix).Replace(l)
+		}
+		srcURL = "https://shop." + suffix + "/"
+		c.Event("engine_selection_lists_with_public_suffix_domains", 1)
+	}
 	if c.Rng.Intn(6) == 0 {
 		// A blocking rule and an exception whose whole texts have the same
 		// 32-bit hash (both without an index key: they meet in the sequential
@@ -602,7 +614,7 @@ func c07EngineSelection(c *core.Ctx) {
 			c.Event("engine_selection_lists_with_hash_colliding_rule_texts", 1)
 		}
 	}
-	req := rules.NewRequest("https://x.com/", "https://d.com/", rules.TypeScript)
+	req := rules.NewRequest("https://x.com/", srcURL, rules.TypeScript)
 	req.DNSType = 1
 	req.ClientIP = gen.ClientNets[0].Prefix.Addr()
 	req.SortedClientTags = []string{"device_pc"}
